@@ -14,7 +14,7 @@ RULE = ("documents are built by independent serialisers from generated timestamp
         "(fields, not instants), lines ended by LF, CRLF or bare CR: SRT HH+:MM:SS[,mmm]; WebVTT [HH+:]MM:SS.mmm with ids, "
         "settings, NOTE blocks, empty cues and reader options (time shift of either sign - also one that moves cues before zero: none may be lost -, "
         "ignore_timing_errors, lang); DFXP clock time with 0-45 fraction digits or :FF frames, "
-        "offset times n[.d](h|m|s|ms|f), begin+end and begin+dur, empty <p> (with, without or with partial timing attributes), 1-2 divs; SAMI "
+        "(WebVTT cue text may begin with NOTE / STYLE / REGION / WEBVTT); offset times n[.d](h|m|s|ms|f), begin+end, begin+dur and begin+end+dur (dur reaching at least as far as end), empty <p> (with, without or with partial timing attributes), 1-2 divs; SAMI "
         "syncs in 1-3 languages (also spaced by exactly 4 s, the default duration of a last cue) with ends given by blank P or the next cue, quoted/unquoted, "
         "upper/lower case; MicroDVD with/without {0}{0}fps header (any decimal rate 1-120 with 0-3 fraction digits; frames biased to those falling on whole microseconds). Expected instants come from "
         "exact Fraction arithmetic on the spelling. Exhaustive legs: MicroDVD frames 0..2.16M "
@@ -121,7 +121,11 @@ def webvtt_strategy(tier):
             cues.append({"a": a, "b": b, "id": draw(st.sampled_from([None, None, "7", "intro", "c-1"])),
                          "settings": draw(st.sampled_from([None, None, "align:left", "line:10% position:20% size:50%",
                                                             "align:center line:0"])),
-                         "empty": draw(st.integers(0, 7)) == 0, "nl": draw(st.integers(1, 2))})
+                         "empty": draw(st.integers(0, 7)) == 0, "nl": draw(st.integers(1, 2)),
+                         # cue text that begins like a block of another kind (block keywords
+                         # only count at the start of a block, not inside a cue)
+                         "first": draw(st.sampled_from([None] * 8 + ["NOTE", "NOTE this is text", "NOTE\ttab", "STYLE",
+                                                                     "REGION", "WEBVTT", "NOTEBOOK", "::cue { }"]))})
         min_ms = int(min(T.value(c["a"]) for c in cues) // 1000)
         max_ms = int(max(T.value(c["b"]) for c in cues) // 1000)
         shift = draw(st.one_of(st.just(0), st.just(0), st.integers(-min_ms, 10 ** 7),
@@ -147,6 +151,9 @@ def check_webvtt(case, rec):
         cues.append({"id": c["id"], "start": T.text(c["a"]), "end": T.text(c["b"]),
                      "settings": c["settings"],
                      "lines": [] if c["empty"] else [f"cue {i} line {k}" for k in range(c["nl"])]})
+        if c.get("first") and not c["empty"]:
+            cues[-1]["lines"][0] = c["first"]
+            rec.label("webvtt-text-begins-like-a-block")
     if rec.is_open("webvtt-empty-cue-swallows-next") and _empty_then_block(case):
         rec.excluded_known("webvtt-empty-cue-swallows-next")
         return
@@ -220,6 +227,9 @@ def dfxp_strategy(tier):
                 ps.append({"a": a, "b": b, "dur": use_dur,
                            "empty": draw(st.sampled_from([None, None, None, None, None, "", " ", "\n    "])),
                            "end_first": draw(st.booleans()),
+                           # begin, end and a dur that reaches at least as far as end: the
+                           # paragraph ends at end (the nearer of the two)
+                           "both": (not use_dur) and draw(st.integers(0, 5)) == 0,
                            # timing attributes are optional in TTML: an empty <p> may have none
                            "untimed": draw(st.sampled_from([None, None, "none", "id", "begin-only"]))})
             divs.append({"lang": ["en", "fr"][di], "ps": ps})
@@ -236,6 +246,8 @@ def check_dfxp(case, rec):
         e = []
         for i, p in enumerate(d["ps"]):
             attrs = [("begin", T.text(p["a"])), ("dur" if p["dur"] else "end", T.text(p["b"]))]
+            if p.get("both") and not p["dur"]:
+                attrs.append(("dur", T.text(p["b"])))      # begin + dur >= end
             if p["end_first"]:
                 attrs.reverse()
             inner = p["empty"] if p["empty"] is not None else f"cue {i}"
@@ -252,6 +264,8 @@ def check_dfxp(case, rec):
                 else:
                     eb = T.acceptable(p["b"])
                 e.append((ea, eb))
+            if p.get("both") and p["empty"] is None:
+                rec.label("dfxp-begin-end-and-dur")
             nontriv = nontriv or p["dur"] or p["empty"] is not None or \
                 _nontrivial_stamp(p["a"]) or _nontrivial_stamp(p["b"])
         divs.append({"lang": d["lang"], "ps": ps})
